@@ -17,7 +17,13 @@ mod streamgen;
 mod streammin;
 mod streamsim;
 mod sut;
+mod texec;
+mod tgen;
 mod threadsim;
+mod tmin;
+mod tscen;
+mod tsched;
+mod tsut;
 
 use std::process::exit;
 
@@ -39,6 +45,17 @@ fn main() {
         "selfcheck" => {
             let n = args.get(2).and_then(|s| s.parse().ok()).unwrap_or(2000);
             parent::selfcheck(n)
+        }
+        "miri-run" if args.len() >= 5 => threadsim::miri_run(
+            args[2].parse().unwrap(),
+            args[3].parse().unwrap(),
+            args[4].parse().unwrap(),
+            args.get(5).map(|s| s.as_str()),
+        ),
+        "tgen" if args.len() >= 5 => {
+            let sc = tgen::gen_thread(&args[2], args[3].parse().unwrap(), args[4].parse().unwrap());
+            println!("{}", serde_json::to_string_pretty(&sc).unwrap());
+            0
         }
         "gen" if args.len() >= 6 => {
             let (sc, _) = streamdrv::gen_for(
